@@ -415,6 +415,9 @@ struct Setup {
     resp_timeout: Duration,
     /// (1 + retries) * read timeout of the datagram transport
     dg_budget: Duration,
+    /// the task that adds the upstreams of a load balancer / redundant transport: requests wait for it
+    /// (a request that comes before the first upstream is a case of its own, see no_upstream_case)
+    ready: Option<tokio::task::JoinHandle<()>>,
 }
 
 fn build(transport: &str, peer: &Arc<Peer>, rng: &mut Rng, scale: u64) -> Setup {
@@ -431,18 +434,18 @@ fn build(transport: &str, peer: &Arc<Peer>, rng: &mut Rng, scale: u64) -> Setup 
     mc.set_response_timeout(resp_timeout);
     let dg_budget = read_timeout * (retries as u32 + 1);
     match transport {
-        "dgram" => Setup { conn: Box::new(dgram::Connection::with_config(DgConnect { peer: peer.clone() }, dc)), budget: dg_budget * 110, has_stream: false, has_dgram: true, resp_timeout, dg_budget },
+        "dgram" => Setup { conn: Box::new(dgram::Connection::with_config(DgConnect { peer: peer.clone() }, dc)), budget: dg_budget * 110, has_stream: false, has_dgram: true, resp_timeout, dg_budget, ready: None },
         "stream" => {
             let (client, server) = tokio::io::duplex(peer.pipe);
             tokio::spawn(serve_stream(peer.clone(), server));
             let (conn, tr) = stream::Connection::<RequestMessage<Vec<u8>>, domain::net::client::request::RequestMessageMulti<Vec<u8>>>::with_config(client, sc);
             tokio::spawn(tr.run());
-            Setup { conn: Box::new(conn), budget: resp_timeout * 4, has_stream: true, has_dgram: false, resp_timeout, dg_budget }
+            Setup { conn: Box::new(conn), budget: resp_timeout * 4, has_stream: true, has_dgram: false, resp_timeout, dg_budget, ready: None }
         }
         "multi_stream" => {
             let (conn, tr) = multi_stream::Connection::with_config(StConnect { peer: peer.clone() }, mc);
             tokio::spawn(tr.run());
-            Setup { conn: Box::new(conn), budget: resp_timeout * 8, has_stream: true, has_dgram: false, resp_timeout, dg_budget }
+            Setup { conn: Box::new(conn), budget: resp_timeout * 8, has_stream: true, has_dgram: false, resp_timeout, dg_budget, ready: None }
         }
         "dgram_stream" => {
             let mut c = dgram_stream::Config::new();
@@ -450,7 +453,7 @@ fn build(transport: &str, peer: &Arc<Peer>, rng: &mut Rng, scale: u64) -> Setup 
             c.set_stream(mc);
             let (conn, tr) = dgram_stream::Connection::with_config(DgConnect { peer: peer.clone() }, StConnect { peer: peer.clone() }, c);
             tokio::spawn(tr.run());
-            Setup { conn: Box::new(conn), budget: dg_budget * 110 + resp_timeout * 8, has_stream: true, has_dgram: true, resp_timeout, dg_budget }
+            Setup { conn: Box::new(conn), budget: dg_budget * 110 + resp_timeout * 8, has_stream: true, has_dgram: true, resp_timeout, dg_budget, ready: None }
         }
         "redundant" => {
             let (conn, tr) = redundant::Connection::new();
@@ -459,11 +462,11 @@ fn build(transport: &str, peer: &Arc<Peer>, rng: &mut Rng, scale: u64) -> Setup 
             let (c2, tr2) = multi_stream::Connection::with_config(StConnect { peer: peer.clone() }, mc);
             tokio::spawn(tr2.run());
             let conn2 = conn.clone();
-            tokio::spawn(async move {
+            let ready = tokio::spawn(async move {
                 let _ = conn2.add(Box::new(c1)).await;
                 let _ = conn2.add(Box::new(c2)).await;
             });
-            Setup { conn: Box::new(conn), budget: dg_budget * 110 + resp_timeout * 8, has_stream: true, has_dgram: true, resp_timeout, dg_budget }
+            Setup { conn: Box::new(conn), budget: dg_budget * 110 + resp_timeout * 8, has_stream: true, has_dgram: true, resp_timeout, dg_budget, ready: Some(ready) }
         }
         _ => {
             let (conn, tr) = load_balancer::Connection::new();
@@ -471,12 +474,12 @@ fn build(transport: &str, peer: &Arc<Peer>, rng: &mut Rng, scale: u64) -> Setup 
             let c1 = dgram::Connection::with_config(DgConnect { peer: peer.clone() }, dc.clone());
             let c2 = dgram::Connection::with_config(DgConnect { peer: peer.clone() }, dc);
             let conn2 = conn.clone();
-            tokio::spawn(async move {
+            let ready = tokio::spawn(async move {
                 let cc = load_balancer::ConnConfig::new();
                 let _ = conn2.add("a", &cc, Box::new(c1)).await;
                 let _ = conn2.add("b", &cc, Box::new(c2)).await;
             });
-            Setup { conn: Box::new(conn), budget: dg_budget * 220, has_stream: false, has_dgram: true, resp_timeout, dg_budget }
+            Setup { conn: Box::new(conn), budget: dg_budget * 220, has_stream: false, has_dgram: true, resp_timeout, dg_budget, ready: Some(ready) }
         }
     }
 }
@@ -734,7 +737,10 @@ fn one_case(c: &mut Ctx, fam: &str, idx: u64, threads: bool) {
         rt.block_on(async move {
             // (on real threads the timeouts stay at full length: only the peer's delays are short, so that a stall of the
             // machine is not taken for a lost answer)
-            let setup = build(transport, &peer2, &mut rng2, if threads { 1 } else { scale });
+            let mut setup = build(transport, &peer2, &mut rng2, if threads { 1 } else { scale });
+            if let Some(h) = setup.ready.take() {
+                let _ = h.await;
+            }
             let conn = Arc::new(setup.conn);
             let budget = setup.budget;
             let mut handles = Vec::new();
